@@ -78,6 +78,10 @@ def hand_programs():
         ('call', 0, [('xa', ('py', 8, ['ya'])), ('xb', ('py', 100, []))]), ('call', 0, [('xb', ('py', 100, [])), ('xa', ('py', 8, ['yb']))]),
         ('call', 0, [('xb', ('py', 101, [])), ('xa', ('py', 1, ['ya', 'yb']))]), ('call', 0, [('xb', ('py', 11, [])), ('xa', ('py', 1, ['ya', 'yb']))])]))))],
                                                 'templates': [('T0', ['xa', 'xb'], ('py', 1, ['xa', 'xb']))]}))
+    # a count that turns out to be zero, in an alternative that is not the first (the status on entry is that of the abandoned one)
+    out.append(('count-zero-alternative', {'rules': [('start', ('let', 'na', D, ('seq', [('choice', [('seq', [L('!'), ('rep', CC, 0, ['na'])]), ('rep', CC, 0, ['na'])]), ('star', CC)])))], 'templates': []}))
+    out.append(('count-zero-first-in-rule', {'rules': [('start', ('let', 'na', D, ('seq', [('call', 0, [(None, ('py', 0, ['na']))]), ('star', CC)])))],
+                                             'templates': [('T0', ['nb'], ('rep', CC, 0, ['nb']))]}))
     # let inside an argument expression; argument mentions call-site names
     out.append(('arg-mentions-let', {'rules': [('start', ('let', 'xa', CC, ('call', 0, [(None, ('where', CC, 3, ['xa']))])))],
                                      'templates': [('T0', ['pa'], ('seq', [('pvar', 'pa'), ('opt', ('pvar', 'pa'))]))]}))
@@ -108,6 +112,13 @@ def build_jobs(tier, seed, expand=False):
                                                   + envgen.inputs_for(random.Random(rng.randrange(1 << 30)), 3))),
                      'seed': seed, 'expand': expand})
     return jobs
+
+
+def extra_pairs(seed):
+    """call-versus-expansion pairs on the real generator for inline Python outside the repertoire of the names-layer model
+    (shared with C06)"""
+    from props import c06
+    return c06.bytes_family(seed)
 
 
 def summarise(results, jobs):
@@ -147,6 +158,10 @@ def run(tier, seed, lean):
     for v in violations:
         if v.get('sig', '').startswith('lambda-late-binding'):
             v['finding_class'] = 'late-binding'
+    pv, pn = extra_pairs(seed)
+    violations += pv
+    cov['evaluations'] += pn
+    cov['call_vs_expansion_pairs_on_the_real_generator'] = pn
     cov['rule'] = ('hand-written families for every clause (abandoned alternatives, repetition, recursion, counts, classes with let/pass/requires, '
                    'parameters, arguments that mention call-site names) and typed random programs with let, class bodies, where, |>, counts, templates; '
                    'with and without a grammar header; one in five random programs shadows names on purpose. Every case: real parser = xgen '
